@@ -91,6 +91,40 @@ def canon(v):
     return "%s:%r" % (t, v)
 
 
+def _ind(lines):
+    return "".join(l + "\n" for l in lines)
+
+
+_B = ["def g(x):",
+      "    _COUNT[0] += 1",
+      "    acc = []",
+      "    for i in (1, 2, 3):",
+      "        if i == x:",
+      "            acc.append('hit')",
+      "        acc.append(i)",
+      "    acc.append('end')",
+      "    return ('ind', x, tuple(acc), 'a  b')"]
+
+# "same tokens, different program" (re-indentation, swapped lines, moved statement, blanks inside a literal) and
+# "different text, same program" (trailing blanks, blank line, comment, tabs) variants of ONE function
+INDENT_VARIANTS = {
+    "base": _ind(_B),
+    "indent-into-if": _ind(_B[:6] + ["            acc.append(i)"] + _B[7:]),
+    "indent-into-for": _ind(_B[:7] + ["        acc.append('end')"] + _B[8:]),
+    "dedent-out-of-for": _ind(_B[:6] + ["    acc.append(i)"] + _B[7:]),
+    "return-into-for": _ind(_B[:7] + ["        acc.append('end')", "        return ('ind', x, tuple(acc), 'a  b')"]),
+    "swap-two-lines": _ind(_B[:6] + ["        acc.append('end')", "    acc.append(i)"] + _B[8:]),
+    "move-before-loop": _ind(_B[:3] + [_B[7]] + _B[3:7] + _B[8:]),
+    "literal-blanks": _ind(_B[:8] + ["    return ('ind', x, tuple(acc), 'a b')"]),
+    "literal-blanks-3": _ind(_B[:8] + ["    return ('ind', x, tuple(acc), 'a   b')"]),
+    # same program, other text
+    "trailing-blanks": _ind(_B[:7] + [_B[7] + "   "] + _B[8:]),
+    "blank-line": _ind(_B[:7] + [""] + _B[7:]),
+    "comment": _ind(_B[:7] + ["    # a comment"] + _B[7:]),
+    "tabs": _ind([l.replace("    ", "\t") for l in _B[:8]] + ["\treturn ('ind', x, tuple(acc), 'a  b')"]),
+}
+
+
 def vparams(sc, k):
     """parameters of version k (factory / wraps pairs give each object its own defaults / signature)"""
     return sc["versions"][str(k)].get("params", sc["params"])
@@ -145,6 +179,8 @@ def source_for(sc, k):
                 "        return (%r, 'm', self.s, %s)\n\n"
                 "    def __call__(self, b, c=12, *, d=13):\n        _COUNT[0] += 1\n"
                 "        return (%r, 'call', self.s, (('b', b), ('c', c), ('d', d)))\n" % (tag, items, tag, items, tag))
+    if ver.get("variant"):
+        return pad + "_COUNT = [0]\n" + INDENT_VARIANTS[ver["variant"]]
     if ver.get("slots") is not None:
         # position-aware edits: every literal sits on its own physical line; the final statement spans several
         # lines (tuple / list / dict literals continued over lines, implicit string concatenation, backslash
